@@ -90,8 +90,12 @@ class Report:
     # ---- output
     def finish(self):
         wall = time.time() - self.t0
-        os.makedirs(os.path.join(VERIF, "evidence"), exist_ok=True)
-        os.makedirs(os.path.join(VERIF, "replays"), exist_ok=True)
+        # development runs against a scratch tree (VERIF_REPO) must not overwrite the real evidence
+        alt = os.path.realpath(REPO) != "/repo"
+        evdir = os.path.join(VERIF, ".work", "alt", "evidence") if alt else os.path.join(VERIF, "evidence")
+        rpdir = os.path.join(VERIF, ".work", "alt", "replays") if alt else os.path.join(VERIF, "replays")
+        os.makedirs(evdir, exist_ok=True)
+        os.makedirs(rpdir, exist_ok=True)
         nd = len(self.distinct) + self.distinct_count_extra
         cov = {
             "states": self.states, "transitions": self.transitions,
@@ -107,14 +111,14 @@ class Report:
         ev = {"property_id": self.prop, "tier": self.tier, "seed": self.seed, "level": "model_checking",
               "coverage": cov, "assumptions": self.assumptions, "wall_s": round(wall, 2),
               "violations": len(self.violations)}
-        with open(os.path.join(VERIF, "evidence", self.prop + ".json"), "w") as f:
+        with open(os.path.join(evdir, self.prop + ".json"), "w") as f:
             json.dump(ev, f, indent=1, default=str)
             f.write("\n")
         for fid, what in sorted(self.known_hits.items()):
             print(f"KNOWN-FINDING: property={self.prop} {fid}: {what}")
         if self.violations:
             for i, v in enumerate(self.violations[:10]):
-                path = os.path.join(VERIF, "replays", f"{self.prop}-{self.tier}-{i}.json")
+                path = os.path.join(rpdir, f"{self.prop}-{self.tier}-{i}.json")
                 with open(path, "w") as f:
                     json.dump({"property": self.prop, "what": v["what"], "replay": v["replay"],
                                "seed": self.seed, "tier": self.tier}, f, indent=1, default=str)
